@@ -236,6 +236,8 @@ theorem good_evalPrefixIncrDecr {op n} : Good (evalPrefixIncrDecr op n) := by un
 macro_rules | `(tactic| good_lemma) => `(tactic| with_reducible exact good_evalPrefixIncrDecr)
 theorem good_evalPostfix {op i} : Good (evalPostfix op i) := by unfold evalPostfix; good
 macro_rules | `(tactic| good_lemma) => `(tactic| with_reducible exact good_evalPostfix)
+theorem good_noteHazard {c k n} : Good (noteHazard c k n) := by unfold noteHazard; good
+macro_rules | `(tactic| good_lemma) => `(tactic| with_reducible exact good_noteHazard)
 theorem good_evalIndexAssignment {w i v} : Good (evalIndexAssignment w i v) := by unfold evalIndexAssignment; good
 macro_rules | `(tactic| good_lemma) => `(tactic| with_reducible exact good_evalIndexAssignment)
 theorem good_deleteMapEntry {l i} : Good (deleteMapEntry l i) := by unfold deleteMapEntry; good
@@ -436,6 +438,7 @@ theorem allGood_zero : AllGood 0 := by
   · intro name args; unfold Grol.E.applyExtension; good_ih
   · intro fn args; unfold Grol.E.applyFunction; good_ih
 
+set_option maxHeartbeats 1600000 in
 theorem good_evalI_succ {n} (ih : AllGood n) : ∀ node, Good (Grol.E.evalI (n+1) node) := by
   intro node; unfold Grol.E.evalI; good_ih
 
